@@ -53,7 +53,17 @@ pub fn monitor(out: &RunOut) -> MonOut {
             } else {
                 continue;
             };
-            let version_of = |id: &str| -> String { l.presets.iter().position(|a| a.id == id).and_then(|i| l.versions.get(i)).map(|v| four_part(v)).unwrap_or_default() };
+            // the app's version when the check began: the configured one, or what the embedder has set
+            // in the shared app set since (a change made while the check is under way does not count)
+            let version_of = |id: &str| -> String {
+                // (the check takes its copy of the app set at the first read after it began)
+                let snap = (c.start..c.end).find(|j| matches!(h[*j].kind, Kind::AppSetRead)).unwrap_or(c.start);
+                let bumped = (l.start..snap).rev().find_map(|j| match &h[j].kind {
+                    Kind::NeighbourMutate { app, version: Some(v), .. } if app == id => Some(four_part(v)),
+                    _ => None,
+                });
+                bumped.unwrap_or_else(|| l.presets.iter().position(|a| a.id == id).and_then(|i| l.versions.get(i)).map(|v| four_part(v)).unwrap_or_default())
+            };
             // environment facts
             let mut plan: Option<Result<String, ()>> = None;
             let mut can_start: Option<UpdateDecisionRec> = None;
